@@ -366,3 +366,17 @@ Definition best2 (fuel : nat) (pt : pattern) (a b : str) : option which :=
       else if str_ltb a b then Some WFirst else Some WSecond
   | _, _ => None
   end.
+(* the same with the work-list loop deciding the two matches (what the code runs; BestProofs.best2_w_refines) *)
+Definition best2_w (fuel : nat) (pt : pattern) (a b : str) : option which :=
+  match pmatches_w fuel pt a, pmatches_w fuel pt b with
+  | Some true, Some false => Some WFirst
+  | Some false, Some true => Some WSecond
+  | Some false, Some false => Some WNone
+  | Some true, Some true =>
+      let d1 := mkv (pn_version (pkgname_new a)) in
+      let d2 := mkv (pn_version (pkgname_new b)) in
+      if dewey_cmp d1 GT d2 then Some WFirst
+      else if dewey_cmp d1 LT d2 then Some WSecond
+      else if str_ltb a b then Some WFirst else Some WSecond
+  | _, _ => None
+  end.
